@@ -21,18 +21,19 @@ type Obligation struct {
 	Pos       string `json:"pos,omitempty"`
 	Verdict   string `json:"verdict"` // holds | violated | undecided | known-finding
 	Detail    string `json:"detail,omitempty"`
+	Variant   string `json:"build_variant,omitempty"` // set for obligations evaluated under a non-default build configuration (thorough tier)
 }
 
 type RuleInfo struct {
-	ID        string `json:"id"`
-	Engine    string `json:"engine"`
-	Text      string `json:"text"`
-	Floor     int    `json:"floor"`
-	Instances int    `json:"instances"`
-	Blocks    int    `json:"ssa_blocks_traversed"`
-	Edges     int    `json:"ssa_edges_traversed"`
+	ID        string          `json:"id"`
+	Engine    string          `json:"engine"`
+	Text      string          `json:"text"`
+	Floor     int             `json:"floor"`
+	Instances int             `json:"instances"`
+	Blocks    int             `json:"ssa_blocks_traversed"`
+	Edges     int             `json:"ssa_edges_traversed"`
 	Funcs     map[string]bool `json:"-"`
-	FuncList  []string `json:"functions"`
+	FuncList  []string        `json:"functions"`
 }
 
 type Property struct {
@@ -253,30 +254,39 @@ func runProperty(prop *Property, repo, tier string, onlyConstruct string) (int, 
 	if tier == "thorough" {
 		roots = []string{"./..."}
 	}
-	p, err := Load(repo, tier, roots, "", "")
+	c, p, err := evalOnce(prop, repo, tier, roots, variantTags, variantArch)
 	if err != nil {
 		return 2, err
 	}
-	c := &Ctx{P: p, Prop: prop, Rules: map[string]*RuleInfo{}}
-	func() {
-		defer func() {
-			if r := recover(); r != nil {
-				if ae, ok := r.(AnchorError); ok {
-					c.Rule("anchor", "loader", "every object named by a rule resolves in the loaded program", 0)
-					c.Undecided("anchor#"+ae.Name, token.NoPos, ae.Error())
-					return
-				}
-				panic(r)
+	// thorough: the anchor packages once more under the build configurations that select
+	// other files (build-tagged siblings of the anchored code), one after the other
+	type variantInfo struct {
+		Name        string `json:"name"`
+		Packages    int    `json:"packages"`
+		Functions   int    `json:"functions"`
+		Obligations int    `json:"obligations"`
+		Failed      int    `json:"not_discharged"`
+	}
+	var variants []variantInfo
+	if tier == "thorough" && variantTags == "" && variantArch == "" && os.Getenv("VERIF_NO_VARIANTS") == "" {
+		for _, v := range []struct{ name, tags, arch string }{
+			{"tags=nosecboot", "nosecboot", ""},
+			{"tags=withtestkeys", "withtestkeys", ""},
+			{"GOARCH=arm64", "", "arm64"},
+		} {
+			cv, pv, err := evalOnce(prop, repo, tier, prop.Roots, v.tags, v.arch)
+			if err != nil {
+				return 2, fmt.Errorf("variant %s: %v", v.name, err)
 			}
-		}()
-		prop.Run(c)
-	}()
-	// floors
-	for _, id := range c.order {
-		r := c.Rules[id]
-		if r.Instances < r.Floor {
-			c.cur = r
-			c.Undecided(id+"#floor", token.NoPos, fmt.Sprintf("rule matched %d instances, fewer than the %d confirmed by hand: the rule would pass vacuously", r.Instances, r.Floor))
+			vi := variantInfo{Name: v.name, Packages: len(pv.Pkgs), Functions: len(pv.AllFuncs()), Obligations: len(cv.Obls)}
+			for _, o := range cv.Obls {
+				if o.Verdict != "holds" {
+					vi.Failed++
+				}
+				o.Variant = v.name
+				c.Obls = append(c.Obls, o)
+			}
+			variants = append(variants, vi)
 		}
 	}
 	vdir := verifDir()
@@ -329,7 +339,11 @@ func runProperty(prop *Property, repo, tier string, onlyConstruct string) (int, 
 			path := filepath.Join(violDir, fmt.Sprintf("%s-%d.json", prop.ID, nviol))
 			data, _ := json.MarshalIndent(map[string]interface{}{"property_id": prop.ID, "tier": tier, "obligation": o, "repo": repo}, "", " ")
 			os.WriteFile(path, data, 0o644)
-			fmt.Printf("%s: %s [%s %s] %s\n", o.Pos, strings.ToUpper(o.Verdict), o.Rule, o.Construct, o.Detail)
+			vtxt := ""
+			if o.Variant != "" {
+				vtxt = " (" + o.Variant + ")"
+			}
+			fmt.Printf("%s: %s [%s %s]%s %s\n", o.Pos, strings.ToUpper(o.Verdict), o.Rule, o.Construct, vtxt, o.Detail)
 			fmt.Printf("VIOLATION property=%s replay=%s\n", prop.ID, path)
 			violSamples = append(violSamples, o)
 		}
@@ -363,8 +377,9 @@ func runProperty(prop *Property, repo, tier string, onlyConstruct string) (int, 
 				"samples":            append(violSamples, samples...),
 				"packages_loaded":    len(p.Pkgs),
 				"functions_analysed": len(p.AllFuncs()),
-				"scope":              map[string]string{"quick": "the property's anchor packages from source, dependencies from export data", "thorough": "the whole module from source (minus the two cgo mains that cannot be type-checked here)"}[tier],
+				"scope":              map[string]string{"quick": "the property's anchor packages from source, dependencies from export data", "thorough": "the whole module from source (minus cmd/snap-seccomp, which cannot be type-checked here), then the anchor packages again under -tags nosecboot, -tags withtestkeys and GOARCH=arm64"}[tier],
 				"excluded_packages":  excludedPkgs,
+				"build_variants":     variants,
 				"exhaustive":         false,
 			},
 			"assumptions": append([]string{"go/ssa (x/tools v0.29.0) lowers the source faithfully; CFG paths over-approximate feasible executions", "rules are necessary conditions for the property: a pass does not prove the behaviour"}, prop.Assumptions...),
@@ -383,6 +398,38 @@ func runProperty(prop *Property, repo, tier string, onlyConstruct string) (int, 
 		return 1, nil
 	}
 	return 0, nil
+}
+
+
+// evalOnce loads one build configuration and evaluates the property's rules on it.
+func evalOnce(prop *Property, repo, tier string, roots []string, tags, arch string) (*Ctx, *Prog, error) {
+	p, err := Load(repo, tier, roots, tags, arch)
+	if err != nil {
+		return nil, nil, err
+	}
+	c := &Ctx{P: p, Prop: prop, Rules: map[string]*RuleInfo{}}
+	func() {
+		defer func() {
+			if r := recover(); r != nil {
+				if ae, ok := r.(AnchorError); ok {
+					c.Rule("anchor", "loader", "every object named by a rule resolves in the loaded program", 0)
+					c.Undecided("anchor#"+ae.Name, token.NoPos, ae.Error())
+					return
+				}
+				panic(r)
+			}
+		}()
+		prop.Run(c)
+	}()
+	// floors
+	for _, id := range c.order {
+		r := c.Rules[id]
+		if r.Instances < r.Floor {
+			c.cur = r
+			c.Undecided(id+"#floor", token.NoPos, fmt.Sprintf("rule matched %d instances, fewer than the %d confirmed by hand: the rule would pass vacuously", r.Instances, r.Floor))
+		}
+	}
+	return c, p, nil
 }
 
 func ruleLess(a, b string) bool {
